@@ -3,12 +3,14 @@ package e1
 import (
 	"fmt"
 	"sort"
+	"syscall"
 	"testing"
 	"testing/synctest"
 	"time"
 
 	"github.com/jech/storrent/alloc"
 	"github.com/jech/storrent/mono"
+	"github.com/jech/storrent/verifhook"
 	"verifharness/fixture"
 	"verifharness/vk"
 )
@@ -35,6 +37,35 @@ func lru(t *testing.T, r *vk.Run, prop string) {
 			base := alloc.Bytes()
 			var clk int64
 			s := newStore(c, prop, g, &clk)
+			if ps >= 128<<10 && rng.IntN(2) == 0 {
+				// fault: mapping the buffer of a piece fails (ENOMEM at the fault point before alloc's mmap call).
+				// AddData must report it, and nothing may be accounted for the buffer that does not exist.
+				p := rng.IntN(np)
+				if g.PieceSize(p) < 128<<10 {
+					p = 0 // a short last piece is not mapped, its buffer comes from the Go heap
+				}
+				fails := 1 + rng.IntN(3)
+				n := 0
+				verifhook.SetFault(func(name string) error {
+					if name == "alloc.mmap" && n < fails {
+						n++
+						return syscall.ENOMEM
+					}
+					return nil
+				})
+				for k := 0; k < fails; k++ {
+					_, _, err := s.ps.AddData(uint32(p), 0, g.Truth(int64(p)*int64(ps), fixture.Block), 0)
+					if err == nil {
+						c.Violation("accounting", "alloc-failure-not-reported", fmt.Sprintf("AddData for piece %d returned no error although the buffer could not be mapped", p), d)
+					}
+				}
+				verifhook.SetFault(nil)
+				c.Count("alloc_failures_injected", int64(n))
+				checkAccounting(c, prop, []*store{s}, base, "after-failed-alloc")
+				if got := s.ps.Bytes(); got != 0 {
+					c.Violation("accounting", "bytes-after-failed-alloc", fmt.Sprintf("Pieces.Bytes() is %d after %d failed allocations and nothing else", got, n), d)
+				}
+			}
 			state := make([]string, np)
 			for p := 0; p < np; p++ {
 				f := fillOps(g, p)
